@@ -171,7 +171,9 @@ def cases(tier):
             for mkind in MK:
                 if dim == 1 and mkind == "eig":
                     continue
-                if kind == "gauss" and dim == 2 and mkind in ("dense", "trifact"):
+                if kind == "gauss" and dim == 2 and mkind == "trifact":
+                    continue  # (needs an eigendecomposition of L L^T: same registered decomposition as the dense case)
+                if kind == "gauss" and dim == 2 and mkind == "dense":
                     mkind = "dense_eig"
                 out.append(Case(f"flow/{kind}/{dim}/{mkind}", run_group,
                                 {"probs": [("flow", {"kind": kind, "dim": dim, "mkind": mkind})]}, timeout_s=900))
